@@ -101,6 +101,9 @@ fn main() {
                 }
             }
         }
+        // a panic raised by a library call while *generating* inputs of the property's domain is a finding of
+        // its own (e.g. a public constructor that starts rejecting valid values), not a harness crash
+        let gen_result = std::panic::catch_unwind(std::panic::AssertUnwindSafe(|| {
         match prop.as_str() {
             "C18" => p_hex::generate(&mut ctx, &mut rep, &mut emit),
             "C01" | "C02" | "C03" | "C04" | "C15" => p_codec::generate(&prop, &mut ctx, &mut rep, &mut emit),
@@ -111,6 +114,11 @@ fn main() {
             "C05" | "C06" | "C19" => p_rx::generate(&prop, &mut ctx, &mut rep, &mut emit),
             "C07" | "C08" | "C10" | "C11" | "C12" | "C13" | "C17" => p_misc::generate(&prop, &mut ctx, &mut rep, &mut emit),
             _ => { eprintln!("unknown property {}", prop); std::process::exit(2); }
+        }
+        }));
+        if let Err(p) = gen_result {
+            let msg = p.downcast_ref::<String>().cloned().or_else(|| p.downcast_ref::<&str>().map(|s| s.to_string())).unwrap_or_else(|| "panic".into());
+            rep.oracle_fail("", "(generator)", &format!("a library call made while generating inputs of the property's domain panicked: {}", msg));
         }
     }
     drop(emit);
